@@ -231,6 +231,7 @@ def opTsExtract (j : Json) : Json :=
   let bodyLast := (Bind.relevant Bind.currentOrder).getLast? == some Bind.Step.body
   Json.mkObj [("ts", tsServedJson s),
     ("go_url_fields_from_body", Json.bool (bodyLast && bodyVerb && getBool j "has_body")),
+    ("ts_reads_query", Json.bool (!bodyVerb)),
     ("go_matched", Json.bool goBind.isSome),
     ("go_path", Json.arr ((goBind.getD []).map fun p => Json.arr #[c08BytesJson p.1, c08BytesJson p.2]).toArray),
     ("go_query", Json.arr ((fs.filter (!·.isPath)).map fun f =>
